@@ -87,9 +87,12 @@ def compare(a, b, keep_attrs=True, passthrough=None):
         for v in a.data_vars:
             ref = b[v]
             if passthrough and v in passthrough:
-                ref = passthrough[v].broadcast_like(b[v]).transpose(*b[v].dims)
-                ref = ref.assign_coords({c: b[v][c] for c in b[v].coords if c not in ref.coords})
-                ref.attrs = b[v].attrs
+                try:
+                    ref = passthrough[v].broadcast_like(b[v]).transpose(*b[v].dims)
+                    ref = ref.assign_coords({c: b[v][c] for c in b[v].coords if c not in ref.coords})
+                    ref.attrs = b[v].attrs
+                except Exception:  # noqa: BLE001  -- native reshaped the variable (e.g. a size-1 dim): compare with native itself
+                    ref = b[v]
             problems += [(v, p) for _, p in compare(a[v], ref, keep_attrs)]
         if keep_attrs and a.attrs != b.attrs:
             problems.append((None, f"dataset attrs {a.attrs} vs {b.attrs}"))
